@@ -64,6 +64,8 @@ var c14Layouts = []refx509.ECEncoding{
 	{InnerOID: true, Public: true},
 	{OuterOID: true, InnerOID: true, Public: true},
 	{OuterOID: true, Public: true, Compressed: true},
+	{OuterOID: true, V2: true},
+	{OuterOID: true, Public: true, V2: true},
 }
 
 func c14Enumerate(tier string, yield func(any)) {
@@ -154,6 +156,9 @@ func c14Enumerate(tier string, yield func(any)) {
 			emit(c14Case{Origin: "hand", KeyFix: refx509.Curves[i].Name + "-1", Layout: l})
 		}
 	}
+	for _, alg := range []string{"RSA-1024", "RSA-2048", "RSA-4096"} {
+		emit(c14Case{Origin: "rsa-v2", KeyFix: FixtureForAlg(alg, 1)})
+	}
 	for _, alg := range []string{"RSA-2048", "P-256", "P-521", "brainpoolP256r1", "brainpoolP512t1", "RSA-1024", "P-224", "brainpoolP384r1"} {
 		emit(c14Case{Origin: "csr", KeyFix: FixtureForAlg(alg, 0), CSR: true})
 	}
@@ -216,6 +221,8 @@ func c14KeyPEM(c *c14Case) ([]byte, *refx509.PrivateKey, error) {
 		return refx509.EncodePem("PRIVATE KEY", b), k, nil
 	case "hand":
 		return refx509.EncodePem("PRIVATE KEY", refx509.BuildECPKCS8(k.Curve, k.EC.D, c14Layouts[c.Layout])), k, nil
+	case "rsa-v2":
+		return refx509.EncodePem("PRIVATE KEY", refx509.BuildRSAPKCS8V2(k.RSA)), k, nil
 	}
 	return refx509.EncodePem("PRIVATE KEY", der), k, nil
 }
@@ -352,7 +359,7 @@ func c14Exec(x *engine.Ctx, cc any) {
 	}
 	if c.Origin == "hand" && c.Layout < len(c14Layouts) {
 		l := c14Layouts[c.Layout]
-		feat += fmt.Sprintf(" outer-oid=%v inner-oid=%v public=%v", l.OuterOID, l.InnerOID, l.Public)
+		feat += fmt.Sprintf(" outer-oid=%v inner-oid=%v public=%v v2=%v", l.OuterOID, l.InnerOID, l.Public, l.V2)
 	}
 	check := func(step string) bool {
 		ok := true
@@ -554,7 +561,7 @@ func init() {
 	register(&engine.Check{
 		ID:          "C14",
 		Level:       "model_checking",
-		Rule:        "chain root -> mid -> leaf where mid owns a pre-existing key (so children exist), in a flat directory with file-derived aliases and (trigger sequences of length <=1) in sub-directories with explicit aliases that differ from the file stems. Key origins: each of the 14 algorithms written by gopki's own PKCS#8 writer, standard-library PKCS#8 for RSA 1024/2048/4096 and the NIST curves, reference-built PKCS#8 for all 10 curves in 6 layouts (curve OID outer only, outer + public key, inner only, inner + public key, both + public key, outer + compressed public key), PKCS#8 for all 10 curves whose scalar is written without its one or two leading zero octets; CSR variant: the leaf holds only a request made from 8 key types. Each origin also with the file decorated the way hand-assembled or exported files are (trailing blank line, trailing remark, leading Bag-Attributes text, CRLF line ends, blank lines around, a #HASH line behind the block, the key followed by a traditional-form or an encrypted key block) followed by no trigger, edit-subject or generate-all. From each, every trigger sequence of length <=2 for 15 representative origins and <=1 for the others (quick) / <=3 for every origin (thorough) over {edit subject, touch + generate-outdated, generate-all, strip certificate block, expire (dates in the past), renew + generate-expired, regenerate issuer, change keyAlgorithm to RSA, to another curve, strip hash line}. For every key algorithm also: the entity (key-holding, and request-based for three key types) names a profile that contributes validity and an extension; the artifact rewritten with its certificate block three times in front of the key or request (bundle layout) and regenerated; after the first run(s) the key block is replaced by hand with another key of the same kind, then generate-all and an edit (the new key is the entity's key from then on; for three key types also with one database object that is opened again for every run). After every run: stored key is the same key, certificate SPKI is its public key, mid verifies under root and leaf under mid with byte-equal issuer DN; CSR variant: SPKI bytes = request SPKI, request block byte-identical, no PRIVATE KEY block. states = (origin, trigger prefix), transitions = runs",
+		Rule:        "chain root -> mid -> leaf where mid owns a pre-existing key (so children exist), in a flat directory with file-derived aliases and (trigger sequences of length <=1) in sub-directories with explicit aliases that differ from the file stems. Key origins: each of the 14 algorithms written by gopki's own PKCS#8 writer, standard-library PKCS#8 for RSA 1024/2048/4096 and the NIST curves, reference-built PKCS#8 for all 10 curves in 6 layouts (curve OID outer only, outer + public key, inner only, inner + public key, both + public key, outer + compressed public key, and the RFC 5958 version-2 container with trailing public key, with and without the inner public key), the version-2 container for three RSA sizes, PKCS#8 for all 10 curves whose scalar is written without its one or two leading zero octets; CSR variant: the leaf holds only a request made from 8 key types. Each origin also with the file decorated the way hand-assembled or exported files are (trailing blank line, trailing remark, leading Bag-Attributes text, CRLF line ends, blank lines around, a #HASH line behind the block, the key followed by a traditional-form or an encrypted key block) followed by no trigger, edit-subject or generate-all. From each, every trigger sequence of length <=2 for 15 representative origins and <=1 for the others (quick) / <=3 for every origin (thorough) over {edit subject, touch + generate-outdated, generate-all, strip certificate block, expire (dates in the past), renew + generate-expired, regenerate issuer, change keyAlgorithm to RSA, to another curve, strip hash line}. For every key algorithm also: the entity (key-holding, and request-based for three key types) names a profile that contributes validity and an extension; the artifact rewritten with its certificate block three times in front of the key or request (bundle layout) and regenerated; after the first run(s) the key block is replaced by hand with another key of the same kind, then generate-all and an edit (the new key is the entity's key from then on; for three key types also with one database object that is opened again for every run). After every run: stored key is the same key, certificate SPKI is its public key, mid verifies under root and leaf under mid with byte-equal issuer DN; CSR variant: SPKI bytes = request SPKI, request block byte-identical, no PRIVATE KEY block. states = (origin, trigger prefix), transitions = runs",
 		Bound:       map[string]string{"trigger sequence": "quick<=2 thorough<=3"},
 		Assumptions: []string{"key identity is compared on the private scalar / (N, D)"},
 		Budget:      budgets(quickBudget, thoroughBudget),
